@@ -172,7 +172,7 @@ class SSHConfig:
                 logger.debug1(f'Config pattern "{pattern}" matched no files')
 
             for path in paths:
-                self.parse(path)
+                self.parse(path, nested=True)
 
         self._path = old_path
         self._line_no = old_line_no
@@ -395,13 +395,15 @@ class SSHConfig:
 
         return self._final is not None
 
-    def parse(self, path: Path) -> None:
+    def parse(self, path: Path, nested: bool = False) -> None:
         """Parse an OpenSSH config file and return matching declarations"""
 
         self._path = path
         self._line_no = 0
         self._matching = True
-        self._tokens = {'%': '%'}
+
+        if not nested:
+            self._tokens = {'%': '%'}
 
         logger.debug1('Reading config from "%s"', path)
 
@@ -460,6 +462,10 @@ class SSHConfig:
 
                 if args:
                     self._error(f'Extra data at end: {" ".join(args)}')
+
+        if nested:
+            # Token expansion is done once, by the outermost parse() call
+            return
 
         self._set_tokens()
 
